@@ -320,6 +320,8 @@ class Ctx:
         self.loop = None
         self.nsub = 0
         self.first_snap = None
+        self.sub_point = {}       # fid -> point submitted
+        self.all_result_calls = set()
 
     # ---- interning of points and values (real learners have float points)
     def P(self, x):
@@ -339,7 +341,12 @@ class Ctx:
         return self.val_ids[key]
 
     def act(self, a):
+        if a[0] == "submit":
+            self.sub_point[a[1]] = a[2]
         self.acts.append(a)
+
+    def nfutures(self):
+        return len(self.sub_point)
 
     # ---- the learnt function (called by the fake worker / the runner)
     def value(self, x, attempt):
@@ -428,9 +435,10 @@ class Ctx:
         return ("tell", self.P(e[1]), self.Vv(e[2]))
 
     # ---- step bookkeeping
-    def close(self, phase, why=None, cleaned=None):
+    def close(self, phase, why=None, cleaned=None, nwait=None):
         snap = self.snap(phase)
-        snap["why"], snap["cleaned"] = why, cleaned
+        snap["why"], snap["cleaned"], snap["nwait"] = why, cleaned, nwait
+        self.all_result_calls.update(self.result_calls)
         if self.open_ev is None:
             self.first_snap = snap
         else:
@@ -496,7 +504,7 @@ class Ctx:
     def cf_wait(self, fs, timeout=None, return_when=real_cf.ALL_COMPLETED):
         fs = list(fs)
         if return_when == real_cf.FIRST_COMPLETED:
-            self.close("InWait")
+            self.close("InWait", nwait=len(fs))
             if not fs:
                 self.machinery.append("wait([]) reached (scenario should avoid it)")
                 raise HarnessInterrupt("empty wait")
@@ -534,7 +542,7 @@ class Ctx:
     async def aio_wait(self, fs, *, timeout=None, return_when=real_asyncio.ALL_COMPLETED):
         fs = list(fs)
         if return_when == real_asyncio.FIRST_COMPLETED:
-            self.close("InWait")
+            self.close("InWait", nwait=len(fs))
             if not fs:
                 self.machinery.append("asyncio.wait([]) reached (scenario should avoid it)")
             already = [self.fid(f) for f in fs if f.done()]
@@ -830,3 +838,158 @@ def random_spec(rng, faults=True, cancel=True, learner=None, log=None, big=False
                 if rng.random() < p:
                     spec["faults"][f"{pt}:{att}"] = True
     return spec
+
+
+# --------------------------------------------------------------------------
+# shared check driver for C05 / C06 / C19
+import json  # noqa: E402
+
+
+def features(rec: Rec):
+    """Facts about a run used for the non-triviality rules and histograms."""
+    multi = ooo = False
+    nfail = nretry = 0
+    for st in rec.steps:
+        ev = st["ev"]
+        if ev[0] == "wait":
+            if len(ev[1]) > 1:
+                multi = True
+            fids = [f for f, _ in ev[1]]
+            pend_before = None
+            nfail += sum(1 for _, o in ev[1] if o[0] == "err")
+            if fids and fids != sorted(fids):
+                ooo = True
+        if ev[0] == "shutdown":
+            nfail += sum(1 for _, o in ev[1] if o[0] == "err")
+    seen = set()
+    lowest_pending = 0
+    done = set()
+    for st in rec.steps:
+        if st["ev"][0] == "wait":
+            for f, _ in st["ev"][1]:
+                if any(g < f and g not in done for g in seen):
+                    ooo = True
+                done.add(f)
+        for a in st["acts"]:
+            if a[0] == "submit":
+                if a[2] in [rec.ctx.sub_point[g] for g in seen]:
+                    nretry += 1
+                seen.add(a[1])
+    last = rec.steps[-1]["snap"] if rec.steps else rec.first_snap
+    outstanding = any(st["snap"]["phase"] == "Stopping" for st in rec.steps)
+    late = any(st["ev"][0] == "shutdown" and st["ev"][1] for st in rec.steps)
+    cancelled = any(st["ev"][0] == "cancel" for st in rec.steps)
+    return {"multi": multi, "ooo": ooo, "nfail": nfail, "nretry": nretry, "outstanding": outstanding,
+            "late_result": late, "cancelled": cancelled, "why": (last["why"] or ("?",))[0],
+            "exhausted": any(n > rec.spec["retries"] for n in _fail_counts(rec).values())}
+
+
+def _fail_counts(rec):
+    cnt = {}
+    for st in rec.steps:
+        if st["ev"][0] in ("wait", "shutdown"):
+            for f, o in st["ev"][1]:
+                if o[0] == "err":
+                    k = rec.ctx.P(rec.ctx.sub_point[f])
+                    cnt[k] = cnt.get(k, 0) + 1
+    return cnt
+
+
+class Collector:
+    """Feeds runs to the oracles and, in batches, to the Coq comparison."""
+
+    def __init__(self, chk, prop, oracles, nontrivial, batch=6000, coq_every=1):
+        self.chk, self.prop, self.oracles, self.nontrivial = chk, prop, oracles, nontrivial
+        self.batch, self.coq_every = batch, coq_every
+        self.cases, self.metas = [], []
+        self.nbatch = 0
+        self.stats = {"runs": 0, "compared_in_coq": 0, "mismatches": 0, "stopped_per_coq": 0,
+                      "steps": 0, "kind": {}, "learner": {}, "why": {}, "ntasks": {},
+                      "multi_completion_runs": 0, "out_of_order_runs": 0, "runs_with_failures": 0,
+                      "runs_with_retries": 0, "runs_with_exhausted_point": 0, "cancelled_runs": 0,
+                      "stopped_with_outstanding_futures": 0, "late_results_at_shutdown": 0,
+                      "oracle_failures": 0}
+        self.n = 0
+
+    def add(self, rec: Rec, origin: str, coq=True):
+        chk, st = self.chk, self.stats
+        st["runs"] += 1
+        st["steps"] += len(rec.steps)
+        ft = features(rec)
+        for key, val in (("kind", rec.spec["kind"]), ("learner", rec.spec["learner"]), ("why", ft["why"]),
+                         ("ntasks", str(rec.spec["ntasks"] or f"ncores={rec.spec.get('ncores')}"))):
+            st[key][val] = st[key].get(val, 0) + 1
+        st["multi_completion_runs"] += ft["multi"]
+        st["out_of_order_runs"] += ft["ooo"]
+        st["runs_with_failures"] += ft["nfail"] > 0
+        st["runs_with_retries"] += ft["nretry"] > 0
+        st["runs_with_exhausted_point"] += ft["exhausted"]
+        st["cancelled_runs"] += ft["cancelled"]
+        st["stopped_with_outstanding_futures"] += ft["outstanding"]
+        st["late_results_at_shutdown"] += ft["late_result"]
+        chk.note_case((json.dumps(rec.spec, sort_keys=True), rec.choices), self.nontrivial(rec, ft))
+        if len(rec.steps) > 5 and self.nontrivial(rec, ft):
+            chk.sample({"spec": spec_summary(rec.spec), "events": [_ev_summary(s["ev"]) for s in rec.steps][:14]})
+        for m in rec.machinery[:1]:
+            chk.broke("machinery", f"controlled scheduler inconsistent ({origin})", {"what": m, **replay_doc(rec)})
+        for fn in self.oracles:
+            errs = fn(rec)
+            for clause, msg in errs[:1]:
+                st["oracle_failures"] += 1
+                chk.fail(f"{self.prop}:{clause}",
+                         f"{rec.spec['kind']} runner, learner={rec.spec['learner']}, ntasks={rec.spec['ntasks'] or None}, "
+                         f"retries={rec.spec['retries']}, raise={rec.spec['raise']}: {msg}",
+                         replay_doc(rec))
+        self.n += 1
+        if coq and (self.n % self.coq_every == 0):
+            self.cases.append(case_term(rec))
+            self.metas.append({"origin": origin, **replay_doc(rec)})
+            if len(self.cases) >= self.batch:
+                self.flush()
+
+    def flush(self):
+        if not self.cases:
+            return
+        chk = self.chk
+        mism, legal, errors = chk.coq_cases(f"cases{self.nbatch}", PREAMBLE, "case", self.cases, "check", "ends_stopped",
+                                            shard=max(50, min(400, len(self.cases) // 16 + 1)))
+        self.nbatch += 1
+        for e in errors:
+            chk.broke("correspondence", "Model/Runner.v cases could not be evaluated", e)
+        for ci, si in mism[:5]:
+            m = self.metas[ci]
+            chk.broke("correspondence", f"Model/Runner.v vs adaptive.runner: case {m['origin']} step {si}",
+                      {"spec": m["spec"], "choices": m["choices"], "step": si})
+        self.stats["compared_in_coq"] += len(self.cases)
+        self.stats["mismatches"] += len(mism)
+        self.stats["stopped_per_coq"] += legal
+        self.cases, self.metas = [], []
+
+
+def _ev_summary(ev):
+    if ev[0] in ("wait", "shutdown"):
+        return [ev[0], [(f, o[0]) for f, o in ev[1]]]
+    return list(ev)
+
+
+def replay_failures(doc, oracles):
+    """--replay: re-run the recorded cases on the real runner, print what the oracles say."""
+    bad = 0
+    items = doc.get("failing_inputs", []) + [b for b in doc.get("no_longer_checks", []) if isinstance(b.get("detail"), dict)]
+    for f in items:
+        r = f.get("replay") or f.get("detail")
+        if not r or "spec" not in r:
+            continue
+        rec = rerun(r)
+        errs = [e for fn in oracles for e in fn(rec)]
+        print("replayed", spec_summary(rec.spec), "->", errs[:3] or "oracle silent", "; ended with", repr(rec.exc)[:80])
+        bad += bool(errs)
+    return 1 if bad else 0
+
+
+def corpus_docs(prop):
+    from .core import VERIF
+    out = []
+    for f in sorted((VERIF / "corpus" / prop).glob("*.json")):
+        out.append((f.name, json.loads(f.read_text())))
+    return out
